@@ -18,6 +18,7 @@ type Op struct {
 	New    bool     `json:"new,omitempty"`
 	G      string   `json:"g,omitempty"`    // "Box" | "Pair"
 	Args   []string `json:"args,omitempty"` // type-argument kinds
+	Raw    string   `json:"raw,omitempty"`  // "raw": `new G()` without type arguments; "sub": `new AnyG()`, AnyG a plain subclass of the generic
 	Inst   int      `json:"inst"`           // write: target instance (creation index)
 	Member string   `json:"member,omitempty"`
 	Route  string   `json:"route,omitempty"` // "prop" | "meth"
@@ -26,6 +27,12 @@ type Op struct {
 
 func (o Op) String() string {
 	if o.New {
+		switch o.Raw {
+		case "raw":
+			return "new " + o.G + "()"
+		case "sub":
+			return "new Any" + o.G + "()"
+		}
 		return "new " + o.G + "<" + strings.Join(o.Args, ",") + ">"
 	}
 	if o.Route == "meth" {
@@ -62,6 +69,7 @@ type alpha struct {
 	Types    []string // kinds usable as type arguments
 	Vals     []string // kinds of written values
 	Routes   []string
+	Raw      bool // also `new G()` without type arguments and `new AnyG()` (class AnyG extends G {})
 }
 
 // concretisation (seed-dependent): identifier names and literal pools; the shape space is unchanged.
@@ -122,6 +130,7 @@ func (c concr) prelude() string {
 	fmt.Fprintf(&sb, "class %s { public $n = 2; }\n", c.w)
 	fmt.Fprintf(&sb, "class %s<T> {\n  public T $v;\n  public function set_v(T $x) { $this->v = $x; return 1; }\n}\n", c.box)
 	fmt.Fprintf(&sb, "class %s<K, V> {\n  public K $k;\n  public V $v;\n  public function set_k(K $x) { $this->k = $x; return 1; }\n  public function set_v(V $x) { $this->v = $x; return 1; }\n}\n", c.pair)
+	fmt.Fprintf(&sb, "class Any%s extends %s { }\nclass Any%s extends %s { }\n", c.box, c.box, c.pair, c.pair)
 	return sb.String()
 }
 
@@ -141,7 +150,14 @@ func (c concr) script(seq []Op) string {
 			for i, a := range o.Args {
 				ta[i] = c.typeName(a)
 			}
-			fmt.Fprintf(&sb, "try { $%s%d = new %s<%s>(); echo \"N\\n\"; } catch (Throwable $e) { echo \"X\\n\"; }\n", c.inst, n, g, strings.Join(ta, ", "))
+			cls := g + "<" + strings.Join(ta, ", ") + ">"
+			switch o.Raw {
+			case "raw":
+				cls = g
+			case "sub":
+				cls = "Any" + g
+			}
+			fmt.Fprintf(&sb, "try { $%s%d = new %s(); echo \"N\\n\"; } catch (Throwable $e) { echo \"X\\n\"; }\n", c.inst, n, cls)
 			n++
 			continue
 		}
@@ -172,12 +188,18 @@ func (c concr) expect(seq []Op) (lines []string, ok bool) {
 	for _, o := range seq {
 		if o.New {
 			ms := members[o.G]
-			if len(ms) != len(o.Args) {
+			if o.Raw == "" && len(ms) != len(o.Args) || o.Raw != "" && len(o.Args) != 0 {
 				return nil, false
 			}
 			in := &instance{g: o.G, bind: map[string]string{}, stored: map[string]string{}}
 			for i, m := range ms {
-				in.bind[m] = o.Args[i]
+				if o.Raw != "" {
+					// no type argument was given: what such an object accepts is not part of the
+					// statement; its writes are run (they touch the shared template) but not judged
+					in.bind[m] = "*"
+				} else {
+					in.bind[m] = o.Args[i]
+				}
 				in.stored[m] = "null"
 			}
 			live = append(live, in)
@@ -191,6 +213,10 @@ func (c concr) expect(seq []Op) (lines []string, ok bool) {
 		own, has := in.bind[o.Member]
 		if !has {
 			return nil, false
+		}
+		if own == "*" {
+			lines = append(lines, "*")
+			continue
 		}
 		// the whole oracle: an instance accepts exactly the kind of its own type argument
 		if own == o.Val {
@@ -219,6 +245,11 @@ func successors(seq []Op, a alpha, out []Op) []Op {
 					out = append(out, Op{New: true, G: g, Args: []string{t1, t2}})
 				}
 			}
+		}
+	}
+	if a.Raw {
+		for _, g := range a.Generics {
+			out = append(out, Op{New: true, G: g, Raw: "raw"}, Op{New: true, G: g, Raw: "sub"})
 		}
 	}
 	n := 0
